@@ -68,6 +68,12 @@ def _run(ctx, ncases, rec, per_kernel=1):
       mjd = mujoco.MjData(mjm)
       mjd.qpos[2] = rng.choice([0.09, 0.3])       # box resting in the floor or above
       mjd.qpos[7] = rng.choice([0.0, 0.2, -0.2])  # hinge inside / beyond its limit
+      if c % 4 == 3 and not eq:
+        # nothing is constrained: capacities of ZERO are then sufficient and must give the ample result
+        xml = xml.replace('frictionloss=".1"', "")
+        mjm = mujoco.MjModel.from_xml_string(xml)
+        mjd = mujoco.MjData(mjm)
+        mjd.qpos[2], mjd.qpos[7], mjd.qpos[10] = 0.6, 0.0, 0.6
       mjd.qvel[:] = rng.normal(size=mjm.nv) * 0.1
       nworld = int(rng.integers(1, 3))
       # reference with ample capacities
@@ -75,6 +81,7 @@ def _run(ctx, ncases, rec, per_kernel=1):
       need_efc = int(d0.nefc.numpy().max())
       need_con = int(d0.nacon.numpy()[0])
       ref_qacc = d0.qacc.numpy().copy()
+      ref_qvel = d0.qvel.numpy().copy()
       acc.hit(f"eq:{eq[1:6] or 'none'}")
       need_efc_w = d0.nefc.numpy().astype(int)
       CAP = 0x1FF   # capacity bits (NEFC .. EPA_HORIZON); ITERATIONS / LS_ITERATIONS are not capacities
@@ -86,6 +93,11 @@ def _run(ctx, ncases, rec, per_kernel=1):
         for w in range(nworld):
           if short_w[w] and not ovf[w]:
             acc.find(f"{what}: world {w} exceeds the capacity but its overflow word has no capacity bit", site, "silent-overflow", xml=xml, world=w, **rep)
+          qv = d.qvel.numpy()
+          if not ovf[w] and np.allclose(q[w], ref_qacc[w], rtol=1e-3, atol=1e-3 * (1 + np.abs(ref_qacc[w]).max())) and \
+             not np.allclose(qv[w], ref_qvel[w], rtol=1e-3, atol=1e-3 * (1 + np.abs(ref_qvel[w]).max())):
+            acc.find(f"{what}: world {w} has no capacity bit and the right qacc, but the STEP result (qvel) differs from the ample-capacity run (max |d| "
+                     f"{float(np.abs(qv[w] - ref_qvel[w]).max()):.3g})", site, "no-bit-but-different-step", xml=xml, world=w, **rep)
           if not ovf[w] and not np.allclose(q[w], ref_qacc[w], rtol=1e-3, atol=1e-3 * (1 + np.abs(ref_qacc[w]).max())):
             trig = "exact-fit-rows-dropped" if (rep.get("njmax") == need_efc and eq and ("connect" in eq or "weld" in eq)) else "no-bit-but-different"
             acc.find(f"{what}: world {w} has no capacity bit but its qacc differs from the ample-capacity result (max |d| {float(np.abs(q[w] - ref_qacc[w]).max()):.3g})",
